@@ -148,6 +148,7 @@ def check_history(ctx, ops):
     model = Model()
     flags = set()
     removed = False
+    others = []  # [container handed in earlier, its expected content]: must stay independent of nc in both directions
     for k, op in enumerate(ops):
         kind = op[0]
         where = "step %d %r" % (k, op)
@@ -184,6 +185,17 @@ def check_history(ctx, ops):
                 ctx.ok("plus", nc.__add__, other)
             ctx.check([[n.name, n.octave] for n in other.notes] == before, "argument-container-changed", where)
             added = [["obj", n, o] for (n, o) in before]
+            others.append([other, before])
+        elif kind == "touch_other":  # the caller goes on using a container it handed in earlier
+            if not others:
+                continue
+            other, exp_other = others[op[1] % len(others)]
+            ctx.ok("add_note", other.add_note, "A#-7")
+            m2 = Model()
+            for (n_, o_) in exp_other + [["A#", 7]]:
+                m2.add(n_, o_)
+            others[op[1] % len(others)][1] = m2.content()
+            added = []
         elif kind == "plus":  # single item via +
             item = op[1]
             ctx.ok("plus", nc.__add__, _mk(item) if item[0] != "pair" else [_mk(item)])
@@ -254,6 +266,9 @@ def check_history(ctx, ops):
             _model_add_item(ctx, model, nc, item)
         if not _invariants(ctx, nc, model, where):
             break
+        for other, exp_other in others:
+            ctx.check([[n.name, n.octave] for n in other.notes] == exp_other, "argument-container-changed-later",
+                      lambda: "%s: a container handed in earlier now holds %r, expected %r" % (where, [[n.name, n.octave] for n in other.notes], exp_other))
     ctx.note_case(bool(flags) and len(ops) >= 2, ["history:" + f for f in sorted(flags)] or ["history:plain"])
 
 
@@ -347,6 +362,8 @@ ALPHABET = [
     ["minus_list", [["bare", "G"], ["obj", "B", 4]]],
     ["dedupe"],
 ]
+ALPHABET1 = [["plus_nc", [["C", 4], ["G", 4]]], ["add_nc", [["E", 4]]], ["touch_other", 0], ["add", ["bare", "B"]], ["add", ["obj", "D", 5]],
+             ["rm_name", "G"], ["empty"], ["add", ["str", "F", 4]]]
 ALPHABET0 = [["add", ["pair", "C", 0]], ["add", ["obj", "E", 0]], ["add", ["str", "C", 4]], ["add", ["bare", "C"]], ["rm_name_oct", "C", 0],
              ["rm_name_oct", "E", 0], ["rm_name", "E"], ["rm_own", 0], ["rm_note", "C", 0]]
 
@@ -363,6 +380,11 @@ def sub_exhaustive(ctx, shard, n):
     if shard == 0:
         ctx.exhaustive("NoteContainer histories over a 9-operation alphabet around octave 0", "depth <= 4", sum(9 ** d for d in range(1, 5)))
     ctx.enumerate("history", check_history, itertools.islice(seqs0, shard, None, n), size_key=len)
+    # a third alphabet around containers handed in as arguments and used again afterwards
+    seqs1 = (list(s) for d in range(1, 5) for s in itertools.product(ALPHABET1, repeat=d))
+    if shard == 0:
+        ctx.exhaustive("NoteContainer histories over an 8-operation alphabet around argument containers", "depth <= 4", sum(8 ** d for d in range(1, 5)))
+    ctx.enumerate("history", check_history, itertools.islice(seqs1, shard, None, n), size_key=len)
 
 
 def _item_st(allow_bare=True, allow_lists=True):
@@ -397,6 +419,7 @@ def _ops_st():
         st.tuples(st.just("minus"), st.one_of(st.tuples(st.just("bare"), n), st.tuples(st.just("obj"), n, o)).map(list)).map(list),
         st.just(["dedupe"]), st.just(["sort"]), st.just(["empty"]),
         st.tuples(st.just("rm_own"), st.integers(0, 2)).map(list),
+        st.tuples(st.just("touch_other"), st.integers(0, 3)).map(list),
     )
 
 
